@@ -4,7 +4,7 @@
    C++ modelled (the tree /repo, INCLUDING the commits
      "fix: propagate lexer errors in DyndepParser::ParseEdge"  (the two [return err;] are [return false;]),
      "fix: iterate over a copy of out_edges in DyndepLoader::LoadDyndeps",
-     "fix: bind dyndep-supplied restat in a scope private to the edge"):
+     "fix: give an edge whose dyndep binding comes from its rule a scope of its own"):
      src/lexer.in.cc  (compiled: src/lexer.cc)  ReadToken / PeekToken / UnreadToken / EatWhitespace /
                                                 ReadIdent / ReadEvalString (ReadPath, ReadVarValue)
      src/eval_env.cc                            EvalString::Evaluate against the parser's EMPTY env
@@ -673,11 +673,12 @@ Definition scope_restat (e : edge) : edge :=
   mkEdge (e_outs e) (e_nimp_out e) (e_ins e) (e_nimp e) (e_noo e) (e_dyndep e)
          (Scope (Some true)) (e_rule_restat e).
 
-(* edge->env_ = new BindingEnv(edge->env_); edge->env_->AddBinding("restat", "1");
-   (the tree after "fix: bind dyndep-supplied restat in a scope private to the edge"): whatever env_ was --
-   the edge's own scope or, with the dyndep binding inherited from the rule and no indented
-   binding, the file-level scope -- the edge now has a scope of its own that binds restat; it
-   shadows an earlier "restat =" of the statement; no other edge sees it. *)
+(* edge->env_->AddBinding("restat", "1") on the tree after "fix: give an edge whose dyndep binding
+   comes from its rule a scope of its own": ManifestParser::ParseEdge now allocates a BindingEnv for
+   every edge that has a dyndep binding and no indented binding (where env_ used to be the
+   file-level scope), so by the time UpdateEdge runs the edge owns env_; the binding shadows an
+   earlier "restat =" of the statement and no other edge sees it.  (The parser side of that fix is
+   modelled in Manifest/EvalModel.v, parse_edge, [fresh].) *)
 Definition set_restat (g : graph) (i : nat) : graph :=
   mkGraph (update_nth i scope_restat (g_edges g)) (g_file_restat g).
 
